@@ -153,18 +153,11 @@ def _san_view(cert):
         ext = cert.extensions.get_extension_for_oid(_ExtOID.SUBJECT_ALTERNATIVE_NAME)
     except _x509.ExtensionNotFound:
         return None
-    gns = list(ext.value)
-    if not gns:
-        return {"kind": "empty"}
-    g = gns[0]
-    if isinstance(g, _x509.DirectoryName):
-        return {"kind": "dirName", "attrs": [[a.oid.dotted_string, str(a.value)] for a in g.value]}
-    v = g.value
-    if isinstance(v, (str, bytes)):
-        if len(v) == 0:
-            return {"kind": "dirName", "attrs": []}   # iterating an empty str/bytes: no attributes
-        return {"kind": "text"}
-    return {"kind": "otherKind"}
+    # the first directoryName among the general names, wherever it stands (independent of the library's own lookup)
+    for g in list(ext.value):
+        if isinstance(g, _x509.DirectoryName):
+            return {"kind": "dirName", "attrs": [[a.oid.dotted_string, str(a.value)] for a in g.value]}
+    return {"kind": "empty"}
 
 
 def cert_view(der):
